@@ -90,21 +90,18 @@ Fixpoint replace_at (h : hs) (p : list bool) (n : hs) : hs :=
       end
   end.
 
-(* HalfSpace.__iand__ / __ior__ : (returned object, "is self", the _cell of every node on which
-   _add_new_children_to_cell(other) is called, innermost first).
-   - a UnitHalfSpace and a complement node return a NEW node;
-   - a binary node whose right side is a leaf rewrites its right side and returns BEFORE
-     _add_new_children_to_cell;
-   - otherwise the right side is updated recursively, then _add_new_children_to_cell(other). *)
-Fixpoint iop (o : bop) (self other : hs) : hs * bool * list (option oid) :=
-  match self with
-  | Leaf _ _ _ => (Bin o self other None, false, [])
-  | Un l _ => (Bin o (Un l None) other None, false, [])
-  | Bin o' l r cp =>
-      match r with
-      | Leaf _ _ _ => (Bin o' l (Bin o r other None) cp, true, [])
-      | _ => let '(r', _, adds) := iop o r other in (Bin o' l r' cp, true, (adds ++ [cp])%list)
-      end
+(* HalfSpace._link_to_cell(cell): the root is pointed at the cell, the nodes below it only when
+   they do not belong to a cell yet *)
+Fixpoint link_tree (force : bool) (c : oid) (h : hs) : hs :=
+  match h with
+  | Leaf b d cp =>
+      if orb force (match cp with None => true | Some _ => false end) then Leaf b d (Some c) else h
+  | Un l cp =>
+      if orb force (match cp with None => true | Some _ => false end)
+      then Un (link_tree false c l) (Some c) else h
+  | Bin o l r cp =>
+      if orb force (match cp with None => true | Some _ => false end)
+      then Bin o (link_tree false c l) (link_tree false c r) (Some c) else h
   end.
 
 (* ---------------------------------------------------------------- records *)
@@ -325,6 +322,52 @@ Fixpoint add_children_all (g : st) (cps : list (option oid)) (other : hs) : st *
                | (g1, true) => add_children_all g1 r other
                | (g1, false) => (g1, false)
                end
+  end.
+
+(* HalfSpace._link_side_to_cell(side): validator of the left / right setters of a node whose
+   _cell is cp: the cell takes the dividers of the new side (or refuses: nothing changes), then
+   the side is pointed at the cell when it has no cell yet *)
+Definition link_side (g : st) (cp : option oid) (side : hs) : st * hs * bool :=
+  match cp with
+  | None => (g, side, true)
+  | Some c =>
+      match add_children g (Some c) side with
+      | (g1, true) => (g1, (match get_cp side with None => link_tree true c side | Some _ => side end), true)
+      | (g1, false) => (g1, side, false)
+      end
+  end.
+
+(* HalfSpace.__iand__ / __ior__ : (state, object: the returned one, or self as the exception leaves
+   it; "is self"; ok = no NumberConflictError).
+   - a UnitHalfSpace and a complement node return a NEW node that belongs to no cell;
+   - a node whose right side is a leaf sets self.right = self.right & other through the setter;
+   - otherwise the right side is updated recursively and set through the setter, then
+     _add_new_children_to_cell(other). *)
+Fixpoint iop (g : st) (o : bop) (self other : hs) : st * hs * bool * bool :=
+  match self with
+  | Leaf _ _ _ => (g, Bin o self other None, false, true)
+  | Un l _ => (g, Bin o (Un l None) other None, false, true)
+  | Bin o' l r cp =>
+      match r with
+      | Leaf _ _ _ =>
+          match link_side g cp (Bin o r other None) with
+          | (g1, side, true) => (g1, Bin o' l side cp, true, true)
+          | (g1, _, false) => (g1, self, true, false)
+          end
+      | _ =>
+          let '(g1, r', inner_self, ok) := iop g o r other in
+          let r_now := if inner_self then r' else r in    (* what self.right is before the assignment *)
+          if ok then
+            match link_side g1 cp r' with
+            | (g2, side, true) =>
+                match add_children g2 cp other with
+                | (g3, true) => (g3, Bin o' l side cp, true, true)
+                | (g3, false) => (g3, Bin o' l side cp, true, false)
+                end
+            | (g2, _, false) => (g2, Bin o' l r_now cp, true, false)
+            end
+          else (g1, Bin o' l r_now cp, true, false)
+      end
   end.
 
 (* ---------------------------------------------------------------- pointer resolution *)
@@ -752,10 +795,10 @@ Inductive op :=
 | Dedup (pairs : list (oid * oid))     (* duplicate detection is an input: (dead, kept) *)
 | Relink.                              (* __update_internal_pointers on its own (reading) *)
 
-(* _link_geometry_to_cell: geom._add_new_children_to_cell(geom, cell); geom._cell = cell
+(* _link_geometry_to_cell: geom._add_new_children_to_cell(geom, cell); geom._link_to_cell(cell)
    (the tree is pointed at the cell only when the cell accepted all its dividers) *)
 Definition link_geometry (g : st) (c : oid) (t : hs) : st * hs * bool :=
-  let '(g1, ok) := add_children g (Some c) t in (g1, (if ok then set_cp t (Some c) else t), ok).
+  let '(g1, ok) := add_children g (Some c) t in (g1, (if ok then link_tree true c t else t), ok).
 
 Definition set_geom (g : st) (c : oid) (e : ex) : st * res :=
   if Nat.ltb 1 (uses_old e) then (g, RErr PathErr)
@@ -778,17 +821,15 @@ Definition iop_set (g : st) (c : oid) (o : bop) (e : ex) : st * res :=
       match c_geom (cellf g c) with
       | None => (g, RErr TypeErr)
       | Some t =>
-          let '(t1, is_self, adds) := iop o t other in
-          match add_children_all g adds other with
-          | (g1, false) => (set_cell g1 c (cr_geom (cellf g1 c) (Some t1)), RErr NumberConflict)
-          | (g1, true) =>
-              match link_geometry g1 c t1 with
-              | (g2, t2, true) => (set_cell g2 c (cr_geom (cellf g2 c) (Some t2)), ROk)
-              | (g2, t2, false) =>
-                  ((if is_self then set_cell g2 c (cr_geom (cellf g2 c) (Some t2)) else g2),
-                   RErr NumberConflict)
-              end
-          end
+          let '(g1, t1, is_self, ok) := iop g o t other in
+          if ok then
+            match link_geometry g1 c t1 with
+            | (g2, t2, true) => (set_cell g2 c (cr_geom (cellf g2 c) (Some t2)), ROk)
+            | (g2, t2, false) =>
+                ((if is_self then set_cell g2 c (cr_geom (cellf g2 c) (Some t2)) else g2),
+                 RErr NumberConflict)
+            end
+          else (set_cell g1 c (cr_geom (cellf g1 c) (Some t1)), RErr NumberConflict)
       end
   end.
 
@@ -802,16 +843,14 @@ Definition iop_in (g : st) (c : oid) (p : list bool) (o : bop) (e : ex) : st * r
           match node_at t p with
           | None => (g, RErr PathErr)
           | Some sub =>
-              let '(sub1, is_self, adds) := iop o sub other in
+              let '(g1, sub1, is_self, ok) := iop g o sub other in
               let t1 := if is_self then replace_at t p sub1 else t in
-              match add_children_all g adds other with
-              | (g1, false) => (set_cell g1 c (cr_geom (cellf g1 c) (Some t1)), RErr NumberConflict)
-              | (g1, true) => (set_cell g1 c (cr_geom (cellf g1 c) (Some t1)), ROk)
-              end
+              (set_cell g1 c (cr_geom (cellf g1 c) (Some t1)), if ok then ROk else RErr NumberConflict)
           end
       end
   end.
 
+(* parent.left &= e  =  parent.left = parent.left.__iand__(e): the setter of the parent runs last *)
 Definition iop_child (g : st) (c : oid) (p : list bool) (side : bool) (o : bop) (e : ex) : st * res :=
   match fresh_ex e with
   | None => (g, RErr PathErr)
@@ -819,15 +858,18 @@ Definition iop_child (g : st) (c : oid) (p : list bool) (side : bool) (o : bop) 
       match c_geom (cellf g c) with
       | None => (g, RErr PathErr)
       | Some t =>
-          match node_at t (p ++ [side]) with
-          | None => (g, RErr PathErr)
-          | Some sub =>
-              let '(sub1, _, adds) := iop o sub other in
-              let t1 := replace_at t (p ++ [side]) sub1 in
-              match add_children_all g adds other with
-              | (g1, false) => (set_cell g1 c (cr_geom (cellf g1 c) (Some t1)), RErr NumberConflict)
-              | (g1, true) => (set_cell g1 c (cr_geom (cellf g1 c) (Some t1)), ROk)
-              end
+          match node_at t p, node_at t (p ++ [side]) with
+          | Some parent, Some sub =>
+              let '(g1, sub1, is_self, ok) := iop g o sub other in
+              let t_now := if is_self then replace_at t (p ++ [side]) sub1 else t in
+              if ok then
+                match link_side g1 (get_cp parent) sub1 with
+                | (g2, sub2, true) =>
+                    (set_cell g2 c (cr_geom (cellf g2 c) (Some (replace_at t (p ++ [side]) sub2))), ROk)
+                | (g2, _, false) => (set_cell g2 c (cr_geom (cellf g2 c) (Some t_now)), RErr NumberConflict)
+                end
+              else (set_cell g1 c (cr_geom (cellf g1 c) (Some t_now)), RErr NumberConflict)
+          | _, _ => (g, RErr PathErr)
           end
       end
   end.
@@ -912,36 +954,31 @@ Fixpoint dinsert (g : st) (d : ditem) (l : list ditem) : list ditem :=
   end.
 Fixpoint dsort (g : st) (l : list ditem) : list ditem :=
   match l with [] => [] | d :: r => dinsert g d (dsort g r) end.
-Fixpoint dcrash (keys : list (Z * option Z)) : bool :=
-  match keys with
-  | [] => false
-  | k :: r =>
-      orb (existsb (fun k' => andb (fst k =? fst k')
-                                   (orb (negb (is_some (snd k))) (negb (is_some (snd k'))))) r)
-          (dcrash r)
-  end.
 Fixpoint dnodup (l : list ditem) (seen : list ditem) : list ditem :=
   match l with
   | [] => []
   | d :: r => if existsb (ditem_eqb d) seen then dnodup r seen else d :: dnodup r (d :: seen)
   end.
 
+(* the three collections are built first (a number used twice raises before anything is replaced),
+   they belong to the problem, and all their members are linked; then the data inputs are re-sorted
+   (inputs without a number are ordered by their full name: not observable through this model) *)
 Definition add_children_to_problem (g : st) : st * res :=
   let surfs := nodup_o (coll g KSurf ++ used_surfs g) [] in
   let mats := nodup_o (coll g KMat ++ used_mats g) [] in
   let trs := nodup_o (coll g KTr ++ used_trs g) [] in
-  if has_dup (map (num g KSurf) surfs) then (g, RErr NumberConflict)
+  if orb (has_dup (map (num g KSurf) surfs))
+         (orb (has_dup (map (num g KMat) mats)) (has_dup (map (num g KTr) trs)))
+  then (g, RErr NumberConflict)
   else
-    let g1 := set_clinked (set_coll g KSurf (sort_by (num g KSurf) surfs)) KSurf false in
-    if has_dup (map (num g KMat) mats) then (g1, RErr NumberConflict)
-    else
-      let g2 := set_clinked (set_coll g1 KMat (sort_by (num g KMat) mats)) KMat false in
-      if has_dup (map (num g KTr) trs) then (g2, RErr NumberConflict)
-      else
-        let g3 := set_clinked (set_coll g2 KTr (sort_by (num g KTr) trs)) KTr false in
-        let all := dnodup (dins g3 ++ map DMat (coll g3 KMat) ++ map DTr (coll g3 KTr)) [] in
-        if dcrash (map (dkey g3) all) then (g3, RErr AttributeErr)
-        else (set_dins g3 (dsort g3 all), ROk).
+    let ss := sort_by (num g KSurf) surfs in
+    let ms := sort_by (num g KMat) mats in
+    let ts := sort_by (num g KTr) trs in
+    let g1 := set_coll (set_coll (set_coll g KSurf ss) KMat ms) KTr ts in
+    let g2 := set_clinked (set_clinked (set_clinked g1 KSurf true) KMat true) KTr true in
+    let g3 := link_all (link_all (link_all g2 KSurf ss) KMat ms) KTr ts in
+    let all := dnodup (dins g3 ++ map DMat ms ++ map DTr ts) [] in
+    (set_dins g3 (dsort g3 all), ROk).
 
 (* ---- remove_duplicate_surfaces *)
 Fixpoint assoc (l : list (oid * oid)) (o : oid) : option oid :=
@@ -975,6 +1012,22 @@ Fixpoint hs_dedup (g : st) (m : list (oid * oid)) (h : hs) : st * hs * bool :=
 Fixpoint remove_all (l : list oid) (dead : list oid) : list oid :=
   match dead with [] => l | d :: r => remove_all (remove_first d l) r end.
 
+(* the second half of Cell.remove_duplicate_surfaces: every dead surface leaves cell.surfaces, its
+   survivor is appended when it is not there yet *)
+Fixpoint swap_lists (g : st) (c : oid) (m : list (oid * oid)) : st * res :=
+  match m with
+  | [] => (g, ROk)
+  | (dead, kept) :: rest =>
+      let r := cellf g c in
+      if mem_o dead (c_surfs r) then
+        let g1 := set_cell g c (cr_lists r (remove_first dead (c_surfs r)) (c_comps r)) in
+        match cell_add g1 c false kept with
+        | (g2, true) => swap_lists g2 c rest
+        | (g2, false) => (g2, RErr NumberConflict)
+        end
+      else (g, RErr ValueErr)
+  end.
+
 (* Cell.remove_duplicate_surfaces *)
 Definition cell_dedup (g : st) (c : oid) (m : list (oid * oid)) : st * res :=
   let r := cellf g c in
@@ -985,10 +1038,7 @@ Definition cell_dedup (g : st) (c : oid) (m : list (oid * oid)) : st * res :=
   | _, Some t =>
       let '(g1, t', ok) := hs_dedup g m' t in
       let g2 := set_cell g1 c (cr_geom (cellf g1 c) (Some t')) in
-      if ok then
-        let r2 := cellf g2 c in
-        (set_cell g2 c (cr_lists r2 (remove_all (c_surfs r2) (map fst m')) (c_comps r2)), ROk)
-      else (g2, RErr NumberConflict)
+      if ok then swap_lists g2 c m' else (g2, RErr NumberConflict)
   end.
 Fixpoint cells_dedup (g : st) (cs : list oid) (m : list (oid * oid)) : st * res :=
   match cs with
@@ -1006,15 +1056,27 @@ Fixpoint remove_members (g : st) (dead : list oid) : st * res :=
               | (g1, e) => (g1, e)
               end
   end.
+(* a periodic partner that was merged away is replaced by its survivor *)
+Fixpoint repoint_periodic (g : st) (ss : list oid) (m : list (oid * oid)) : st :=
+  match ss with
+  | [] => g
+  | s :: rest =>
+      let r := surff g s in
+      let g1 := match s_per r with
+                | Some p => match assoc m p with
+                            | Some k => set_surf g s (mksurf (s_tr r) (s_oldtr r) (Some k) (s_oldper r))
+                            | None => g
+                            end
+                | None => g
+                end in
+      repoint_periodic g1 rest m
+  end.
 
+(* MCNP_Problem.remove_duplicate_surfaces (the duplicate detection is an input) *)
 Definition dedup (g : st) (m : list (oid * oid)) : st * res :=
   match cells_dedup g (coll g KCell) m with
   | (g1, RErr e) => (g1, RErr e)
-  | (g1, ROk) =>
-      match update_pointers g1 with
-      | (g2, RErr e) => (g2, RErr e)
-      | (g2, ROk) => remove_members g2 (map fst m)
-      end
+  | (g1, ROk) => remove_members (repoint_periodic g1 (coll g1 KSurf) m) (map fst m)
   end.
 
 Definition step (g : st) (o : op) : st * res :=
@@ -1052,44 +1114,24 @@ Fixpoint run (g : st) (ops : list op) : st :=
 Definition is_conflict (r : res) : bool :=
   match r with RErr NumberConflict => true | _ => false end.
 
-(* g = node_at path; g &= e : one of the nodes on which _add_new_children_to_cell(other) runs is
-   linked to cell c (strict = false: or the result is a new object that is not put into the tree) *)
-Definition iop_linked (g : st) (c : oid) (p : list bool) (o : bop) (e : ex) (strict : bool) : bool :=
-  match fresh_ex e, c_geom (cellf g c) with
-  | Some other, Some t =>
-      match node_at t p with
-      | Some sub => let '(_, is_self, adds) := iop o sub other in
-                    orb (andb (negb strict) (negb is_self)) (existsb (fun x => opt_is x c) adds)
-      | None => true
-      end
-  | _, _ => true
-  end.
-
-(* the leaf whose divider is replaced is linked to cell c *)
-Definition div_linked (g : st) (c : oid) (p : list bool) (isc : bool) : bool :=
-  match c_geom (cellf g c) with
-  | Some t => match node_at t p with
-              | Some (Leaf b _ cp) => if Bool.eqb b isc then opt_is cp c else true
-              | _ => true
-              end
-  | None => true
-  end.
+(* the duplicate map of remove_duplicate_surfaces: one survivor per dead surface, and a survivor
+   is not itself removed *)
+Definition dedup_map_ok (m : list (oid * oid)) : bool :=
+  andb (negb (has_dup (map (fun p => Z.of_nat (fst p)) m)))
+       (forallb (fun p => negb (mem_o (snd p) (map fst m))) m).
 
 (* Links (cell.surfaces / cell.complements cover the geometry) survives this operation *)
 Definition links_safe (g : st) (o : op) : bool :=
   match o with
-  | IopSet _ _ _ => negb (is_conflict (snd (step g o)))
-  | IopIn c p b e => andb (negb (is_conflict (snd (step g o)))) (iop_linked g c p b e false)
-  | IopChild c p s b e => andb (negb (is_conflict (snd (step g o)))) (iop_linked g c (p ++ [s]) b e true)
-  | SetDiv c p isc _ => andb (negb (is_conflict (snd (step g o)))) (div_linked g c p isc)
-  | Dedup _ | Relink => false
+  | Dedup m => dedup_map_ok m
+  | Relink => false
   | _ => true
   end.
 
 (* "every member is linked to the problem" survives this operation *)
 Definition linked_safe (g : st) (o : op) : bool :=
   match o with
-  | AddChildren | Dedup _ | Relink => false
+  | Relink => false
   | _ => true
   end.
 
@@ -1106,7 +1148,7 @@ Definition univ_safe (g : st) (o : op) : bool :=
   | Remove KUniv u => negb (existsb (fun c => opt_is (c_univ (cellf g c)) u) (coll g KCell))
   | Append KCell x => in_member_universe g x
   | Extend KCell l | Iadd KCell l => forallb (in_member_universe g) l
-  | Dedup _ | Relink => false
+  | Relink => false
   | _ => true
   end.
 
